@@ -1,19 +1,23 @@
 """C12 — a failed load leaves the target untouched.
 
-(a) tools/translate_loads.py abstracts every load function named by the property, from the clang
-    AST of the current tree, to a term of `Vita.C12.Stmt` (lean/Vita/C12/GenLoads.lean); Lean
-    proves `commit_last_sound` once and closes the extracted table by `decide`
-    (`table_commit_last`, `loads_fail_untouched`).
-(b) Vita/C12/Model.lean models each load as a transformer of the target (writes where the C++
-    writes), sharing the parsers of C11; `X_fail_untouched`, `X_ok_iff`.
+(a) tools/translate_flow.py abstracts every load function named by the property, the stream constructors of the
+    models, serialize::lambda::load and (documented "could be changed") cache::load / evaluator_proxy::load, from the
+    clang AST of the current tree, to data-flow programs (`Vita.C12.Flow.Stmt`, lean/Vita/C12/GenFlow.lean): which
+    locals each extraction writes, which members each statement assigns, which nested loads run on which object,
+    which check guards what, how failure is reported.  Lean proves the frame / clean / kinds invariants once
+    (Flow.lean) and closes the regenerated table by `decide` (`flow_commit_last`, `flow_all_checked`,
+    `flow_kinds_ok`; `loads_fail_untouched`, `failed_read_is_reported`, `failure_is_documented`).
+(b) Vita/C12/Model.lean models each load as a transformer of the target (writes where the C++ writes), sharing
+    the parsers of C11; `X_fail_untouched`, `X_ok_iff`.
 
-Tie (every run): valid serializations produced by the C11 generator are truncated at every byte
-offset and damaged token by token (deletion, same-length numeric substitution, sign flip,
-non-numeric token); each damaged stream is fed to the REAL load on a target holding unrelated
-valid content under ASan/UBSan.  Own oracle: deep snapshot of the target before/after.  Damaged model
-files go through serialize::lambda::load (stream constructors): the only documented outcomes are a
-model, nullptr and exception::data_format; a loaded model is saved again and compared with the Lean
-model's load-then-save.  The
+Tie (every run): valid serializations produced by the C11 generator are truncated at every byte offset and
+damaged token by token (see "the damage model" below); each damaged stream is fed to the REAL load under
+ASan/UBSan on a target built by a history that populates every member (harness/c12_targets.h).  Own oracle: a
+snapshot of EVERY data member of the target before / after (member list generated from the clang AST by
+tools/c12_members.py; a member that is not snapshotted, or that no target of the run populates, is a failure of
+the check) + the observers (description, raw cached signatures, is_valid()).  Damaged model files go through
+serialize::lambda::load (stream constructors): the only documented outcomes are a model, nullptr and
+exception::data_format; a loaded model is saved again and compared with the Lean model's load-then-save.  The
 success/failure verdict and, on success, the loaded object are compared with the model's.
 """
 import concurrent.futures as cf
@@ -39,19 +43,19 @@ SOURCE_TYPE = {"cachet": "cache"}
 WEAK_MAY_CHANGE = {"cachet": "vita::cache::table_"}
 # objects per type, max stream length for exhaustive prefixes, token mutations per object: (quick, thorough)
 BUDGET = {
-    "hash": ((100, 600, 120), (800, 6000, 600)),
-    "fit": ((200, 600, 120), (1600, 6000, 600)),
-    "iga": ((150, 600, 120), (1200, 6000, 600)),
-    "ide": ((150, 600, 120), (1200, 6000, 600)),
-    "mati": ((100, 600, 120), (800, 6000, 600)),
-    "matu": ((100, 600, 120), (800, 6000, 600)),
-    "dist": ((100, 600, 160), (800, 6000, 600)),
-    "imep": ((150, 600, 160), (1200, 6000, 600)),
-    "team": ((40, 600, 160), (300, 6000, 600)),
-    "pop": ((40, 600, 200), (300, 6000, 700)),
-    "summ": ((80, 600, 160), (600, 6000, 600)),
-    "lam": ((60, 600, 200), (480, 6000, 700)),
-    "cachet": ((60, 400, 120), (480, 4000, 600)),
+    "hash": ((100, 600, 120), (570, 6000, 600)),
+    "fit": ((200, 600, 120), (1150, 6000, 600)),
+    "iga": ((150, 600, 120), (860, 6000, 600)),
+    "ide": ((150, 600, 120), (860, 6000, 600)),
+    "mati": ((100, 600, 120), (570, 6000, 600)),
+    "matu": ((100, 600, 120), (570, 6000, 600)),
+    "dist": ((100, 600, 160), (570, 6000, 600)),
+    "imep": ((150, 600, 160), (860, 6000, 600)),
+    "team": ((40, 600, 160), (210, 6000, 600)),
+    "pop": ((40, 600, 200), (210, 6000, 700)),
+    "summ": ((80, 600, 160), (430, 6000, 600)),
+    "lam": ((60, 600, 200), (340, 6000, 700)),
+    "cachet": ((60, 400, 120), (340, 4000, 600)),
 }
 FAILISH = ("fail", "exc:bad_alloc", "exc:length_error", "null", "exc:data_format")
 
@@ -644,9 +648,12 @@ def run(chk, replay=None):
                     "lake build Vita.C12.Props c12_driver && "
                     "lake env lean <#print axioms for every theorem>",
         rule="for each valid serialization from the C11 generator: every byte prefix (all offsets up to the "
-             "tier's length bound, sampled beyond), and per token: deletion, non-numeric replacement, same-digit-"
-             "count numeric substitution (incl. all nines), sign flip; each on a target with unrelated valid "
-             "content; distinct = distinct (type, bytes)",
+             "tier's length bound, sampled beyond), and per token (all tokens of short records, a sample otherwise, "
+             "structural tokens always): deletion, non-numeric word, same-digit-count digits, all zeros, all nines, "
+             "sign flip, '+' prefix, swap with the next token, donor token of the same record / of another object, "
+             "and for program streams the opcode of another valid symbol (other arity / parametric / category, same "
+             "shape, unknown); each on a target built by a populating history (a few targets per source object); "
+             "distinct = distinct (type, bytes)",
         trusted=["Lean 4.33 kernel", "tools/translate_flow.py (+ translate_loads.py helpers, cxx2lean.py): clang-14 "
                  "JSON AST -> data-flow Stmt syntax; classification rules listed in its header",
                  "abstract data-flow semantics Vita/C12/Flow.lean (Exec)",
